@@ -5,7 +5,7 @@ open KeepVerif.C39
 
 def parseOp : String → Option Op
   | "g" => some .gen | "gf" => some .genFail | "gw" => some .genFailWrote | "gn" => some .genNil
-  | "gc" => some .genCrash | "gt" => some .genTorn | "t" => some .take | "tf" => some .takeFail
+  | "gc" => some .genCrash | "gt" => some .genTorn | "gx" => some .genFailWrote | "t" => some .take | "tf" => some .takeFail
   | "tb" => some .takeCrashBefore | "ta" => some .takeCrashAfter
   | "r" => some .restart | "rf" => some .restartFail
   | _ => none
@@ -54,6 +54,7 @@ def monitor (op obs : String) : String :=
   match normalize op with
   | ["pool", sz, _] =>
     if (obs.splitOn "?").length > 1 then "FAIL invalid-parameter-served" else
+    if obs.startsWith "STUCK" then "FAIL generator-stuck" else
     match sz.toNat?, splitWs obs with
     | some size, [o, c, d] =>
       match (field "outs=" o).bind (fun x => (splitList x).mapM parseOut),
